@@ -1528,3 +1528,114 @@ Proof.
   intros s0 cs Hi Hc. vm_compute in Hi. injection Hi as <-. vm_compute in Hc. injection Hc as <-.
   eexists. split; vm_compute; reflexivity.
 Qed.
+
+(* ---- [remap] on a dict with unique keys and no key that collides with a renamed one is the plain lookup ---- *)
+Lemma beq_sym : forall a b, beq a b = beq b a.
+Proof.
+  intros a b. destruct (beq a b) eqn:E.
+  - apply beq_true_eq in E. subst b. symmetry. apply beq_refl.
+  - destruct (beq b a) eqn:E2; [|reflexivity]. apply beq_true_eq in E2. subst b. rewrite beq_refl in E. discriminate.
+Qed.
+
+Lemma get_set {V} : forall k k' (v : V) l, assoc_get beq k (assoc_set beq k' v l) = if beq k k' then Some v else assoc_get beq k l.
+Proof.
+  intros k k' v. induction l as [|[k1 v1] l IH].
+  - cbn. destruct (beq k k'); reflexivity.
+  - cbn [assoc_set]. destruct (beq k' k1) eqn:E.
+    + apply beq_true_eq in E. subst k1. cbn [assoc_get]. destruct (beq k k'); reflexivity.
+    + cbn [assoc_get]. rewrite IH. destruct (beq k k1) eqn:E1; [|reflexivity].
+      apply beq_true_eq in E1. subst k1. rewrite beq_sym, E. reflexivity.
+Qed.
+
+Definition ren (name : String.string) (k : bytes) : bytes :=
+  if beq k (B "type") && String.eqb name "diff" then B "diff_type"
+  else if beq k (B "format") && String.eqb name "meta" then B "meta_format"
+  else k.
+
+Lemma remap_get_fold : forall name (o acc : dopts) k',
+  assoc_get beq k' (fold_left (fun acc p => assoc_set beq (ren name (fst p)) (snd p) acc) o acc)
+  = fold_left (fun (r : option wv) (p : bytes * wv) => if beq k' (ren name (fst p)) then Some (snd p) else r) o (assoc_get beq k' acc).
+Proof.
+  intros name. induction o as [|p o IH]; intros acc k'; [reflexivity|].
+  cbn [fold_left]. rewrite IH, get_set. reflexivity.
+Qed.
+
+Lemma fold_unique : forall name (o : dopts) k k' r, keys_unique o = true ->
+  (forall p, In p o -> beq k' (ren name (fst p)) = beq k (fst p)) ->
+  fold_left (fun (r : option wv) (p : bytes * wv) => if beq k' (ren name (fst p)) then Some (snd p) else r) o r
+  = match assoc_get beq k o with Some v => Some v | None => r end.
+Proof.
+  intros name. induction o as [|[k1 v1] o IH]; intros k k' r Hu Hk; [reflexivity|].
+  cbn [keys_unique] in Hu. apply andb_true_iff in Hu. destruct Hu as [H1 H2]. apply negb_true_iff in H1.
+  pose proof (Hk (k1, v1) (or_introl eq_refl)) as Hh. cbn [fst] in Hh.
+  cbn [fold_left assoc_get fst snd]. rewrite Hh.
+  rewrite (IH k k' _ H2 (fun p Hp => Hk p (or_intror Hp))).
+  destruct (beq k k1) eqn:E; [|reflexivity].
+  apply beq_true_eq in E. subst k1. rewrite (not_key_get _ _ H1). reflexivity.
+Qed.
+
+Lemma remap_get : forall name o k k', keys_unique o = true ->
+  (forall p, In p o -> beq k' (ren name (fst p)) = beq k (fst p)) ->
+  assoc_get beq k' (remap name o) = assoc_get beq k o.
+Proof.
+  intros name o k k' Hu Hk.
+  assert (E : remap name o = fold_left (fun (acc : dopts) (p : bytes * wv) => assoc_set beq (ren name (fst p)) (snd p) acc) o [])
+    by reflexivity.
+  rewrite E, remap_get_fold, (fold_unique name o k k' _ Hu Hk). cbn [assoc_get]. destruct (assoc_get beq k o); reflexivity.
+Qed.
+
+Lemma only_keys_In : forall o al p, only_keys o al = true -> In p o -> exists a, In a al /\ fst p = B a.
+Proof.
+  intros o al p H Hin. unfold only_keys in H. rewrite forallb_forall in H. specialize (H p Hin).
+  apply existsb_exists in H. destruct H as [a [Ha E]]. exists a. split; [exact Ha | apply beq_true_eq; exact E].
+Qed.
+
+(* metadata: the options of a well-formed section are looked up under their own names *)
+Theorem remap_kw_meta : forall o, keys_unique o = true -> only_keys o ["encoding"; "format"] = true ->
+  kw (remap "meta" o) "encoding" = kw o "encoding" /\ kw_opt (remap "meta" o) "meta_format" = kw_opt o "format".
+Proof.
+  intros o Hu Hk. unfold kw, kw_opt. split.
+  - rewrite (remap_get "meta" o (B "encoding") (B "encoding") Hu); [reflexivity|].
+    intros p Hp. destruct (only_keys_In _ _ _ Hk Hp) as [a [Ha ->]].
+    destruct Ha as [<- | [<- | []]]; reflexivity.
+  - apply (remap_get "meta" o (B "format") (B "meta_format") Hu).
+    intros p Hp. destruct (only_keys_In _ _ _ Hk Hp) as [a [Ha ->]].
+    destruct Ha as [<- | [<- | []]]; reflexivity.
+Qed.
+
+Theorem remap_kw_diff : forall o, keys_unique o = true -> only_keys o ["encoding"; "line_endings"; "type"] = true ->
+  kw (remap "diff" o) "encoding" = kw o "encoding" /\ kw (remap "diff" o) "line_endings" = kw o "line_endings" /\
+  kw (remap "diff" o) "diff_type" = kw o "type".
+Proof.
+  intros o Hu Hk. unfold kw.
+  assert (G : forall k k', (forall a, In a ["encoding"; "line_endings"; "type"] -> beq k' (ren "diff" (B a)) = beq k (B a)) ->
+                           assoc_get beq k' (remap "diff" o) = assoc_get beq k o).
+  { intros k k' H. apply (remap_get "diff" o k k' Hu). intros p Hp.
+    destruct (only_keys_In _ _ _ Hk Hp) as [a [Ha ->]]. apply H. exact Ha. }
+  repeat split.
+  - rewrite (G (B "encoding") (B "encoding")); [reflexivity|]. intros a [<- | [<- | [<- | []]]]; reflexivity.
+  - rewrite (G (B "line_endings") (B "line_endings")); [reflexivity|]. intros a [<- | [<- | [<- | []]]]; reflexivity.
+  - rewrite (G (B "type") (B "diff_type")); [reflexivity|]. intros a [<- | [<- | [<- | []]]]; reflexivity.
+Qed.
+
+(* so, for well-formed sections, the normalisation reads exactly as documented *)
+Theorem norm_msec_plain : forall o c, keys_unique o = true -> only_keys o ["encoding"; "format"] = true ->
+  is_nil c = false ->
+  norm_msec (Me o c) = Me (present [(B "encoding", kw o "encoding"); (B "format", format_or_default (kw_opt o "format"))]) c.
+Proof.
+  intros o c Hu Hk Hn. destruct (remap_kw_meta o Hu Hk) as [E1 E2].
+  unfold norm_msec, Me. cbn [m_content m_opts]. rewrite Hn, E1, E2. reflexivity.
+Qed.
+
+Theorem norm_dsec_plain : forall o b, keys_unique o = true -> only_keys o ["encoding"; "line_endings"; "type"] = true ->
+  is_nil b = false ->
+  norm_dsec (D o (Some b)) =
+  D (present [(B "encoding", kw o "encoding");
+              (B "line_endings", snd (diff_prepared (kw o "line_endings") (kw o "encoding") b));
+              (B "type", kw o "type")])
+    (Some (fst (diff_prepared (kw o "line_endings") (kw o "encoding") b))).
+Proof.
+  intros o b Hu Hk Hn. destruct (remap_kw_diff o Hu Hk) as [E1 [E2 E3]].
+  unfold norm_dsec, D. cbn [x_content x_opts]. rewrite Hn, E1, E2, E3.
+  destruct (diff_prepared _ _ b). reflexivity.
+Qed.
